@@ -26,14 +26,16 @@ Definition last_shape (l : @lens FOps) : option (@lshape FOps) :=
   match rev (l_surfs l) with s :: _ => Some (l_shape s) | [] => None end.
 
 Theorem image_surface_refuted :
-  exists (p : @presc FOps) (l : @lens FOps),
-    load (O:=FOps) no_catalogue (emit (O:=FOps) f_show f_showZ p) = Some l /\
-    List.length (l_surfs l) = List.length (l_surfs (lens_of p)) /\
-    last_shape l = Some LPlane /\
+  exists p : @presc FOps,
+    match load (O:=FOps) no_catalogue (emit (O:=FOps) f_show f_showZ p) with
+    | Some l => List.length (l_surfs l) = List.length (l_surfs (lens_of p)) /\ last_shape l = Some LPlane
+    | None => False
+    end /\
     last_shape (lens_of p) = Some (LStd (O:=FOps) 2%float 0%float).
 Proof.
-  exists d22_presc. eexists. split; [vm_compute; reflexivity|].
-  split; [vm_compute; reflexivity|]. split; vm_compute; reflexivity.
+  exists d22_presc. split.
+  - vm_compute. split; reflexivity.
+  - vm_compute. reflexivity.
 Qed.
 
 (** the catalogue as the lookup sees it: (group, category_name, name) rows; the search keeps a row when the
